@@ -39,6 +39,18 @@ def run(ctx):
     )
     ctx.assumptions = ["SQLite returns the stored dimension records unchanged (fetch_one)"]
     with core.Lock():
+        # T-tie: DataCoordinate.standardize for a plain mapping (merge order of mapping / keywords / defaults, the empty group, the
+        # full / required-only / missing-key outcomes) is translated from the working tree into Gen/StandardizePy.lean;
+        # C13.Translated.translated_standardize identifies it with the model's `standardize`
+        import sys as _sys
+
+        _sys.path.insert(0, os.path.join(core.VERIF, "translate"))
+        try:
+            import gen_standardize
+
+            gen_standardize.generate(core.GEN_DIR)
+        except Exception as e:
+            ctx.broken.append(f"translation: DataCoordinate.standardize: {type(e).__name__}: {e}")
         ok = gen(ctx) is not None
         built = ok and core.lean_build(ctx, LEAN_TARGETS)
         if built:
